@@ -1491,6 +1491,21 @@ func (x *Exec) genericCall(st *State, ins ssa.Instruction, full string, fn *ssa.
 		}
 		cont(st, x.appendOp(st, ins, x.mk(x.TM.Zero(s.Typ), s.Typ), s, nil))
 		return true
+	case "slices.Equal":
+		a, b := args[0], args[1]
+		sl, ok := types.Unalias(a.Typ).Underlying().(*types.Slice)
+		if !ok || x.exploded(sl.Elem()) {
+			return false
+		}
+		es := x.TM.Key(sl.Elem())
+		at := func(s Value, idx string) Value {
+			return x.mk(Select(Select(x.elemArr(st, es), app("sbase", s.Term)), idx), sl.Elem())
+		}
+		r := x.D.Fresh("sliceseq", SBool)
+		all := fmt.Sprintf("(forall ((k!q Int)) (! (=> (and (<= 0 k!q) (< k!q (slen %s))) %s) :pattern (%s)))", a.Term, x.equal(st, at(a, "k!q"), at(b, "k!q"), nil), at(a, "k!q").Term)
+		st.Assume(Eq(r, And(Eq(app("slen", a.Term), app("slen", b.Term)), all)))
+		cont(st, boolV(r))
+		return true
 	case "slices.Contains", "slices.Index":
 		// first index holding a value equal to the argument (Go's == on the element type), or -1
 		s, e := args[0], args[1]
